@@ -366,6 +366,13 @@ func (cc *connectUnaryClientConn) Spec() Spec {
 
 func (cc *connectUnaryClientConn) Send(msg any) error {
 	if err := cc.marshaler.Marshal(msg); err != nil {
+		if !errors.Is(err, io.EOF) {
+			// The message couldn't be encoded, or not all of it went out. The
+			// caller is going to close the request: make sure that what the
+			// server gets then is a failed request, not a complete body - an
+			// empty one is a valid message, which the caller never sent.
+			cc.duplexCall.SetError(err)
+		}
 		return err
 	}
 	return nil // must be a literal nil: nil *Error is a non-nil error
